@@ -331,6 +331,9 @@ class World:
         self.keys["oct32b"] = OctKey.import_key(bytes(range(101, 133)))
         self.keys["oct16b"] = OctKey.import_key(bytes(range(200, 216)))
         self.keys["p256-dict"] = JWKRegistry.import_key(K.jwk_dict("p256b"))
+        # keys whose declared key_ops allow one operation only (what one call was allowed to do says nothing about the next)
+        self.keys["oct16-signonly"] = OctKey.import_key(bytes(range(16)), {"key_ops": ["sign"]})
+        self.keys["oct16-verifyonly"] = OctKey.import_key(bytes(range(16)), {"key_ops": ["verify"]})
         self.keyset = None
         self.jws_reg = jws.JWSRegistry(algorithms=["HS256", "ES256", "RS256", "PS256", "EdDSA"])
         self.jws_reg_hs = jws.JWSRegistry(algorithms=["HS256"])
@@ -556,6 +559,20 @@ def make_calls(rng):
             lambda w, algs=algs: json.dumps(jwt.decode(t_jwt, w.keys["oct32"], algorithms=list(algs)).claims, sort_keys=True))
     calls["jws.sign.HS512.algorithms=HS512"] = lambda w: ("token", "jws512", jws.serialize_compact({"alg": "HS512"}, b"p512", w.keys["oct32"], algorithms=["HS512"]),
                                                          ("oct32", "HS512", b"p512"))
+
+    # operation-restricted keys: the permitted operation, and the ones the key does not list (refused - before and after)
+    t_hs256_16 = jws.serialize_compact({"alg": "HS256"}, b"hs256-16", k16)
+    calls["ops.signonly.sign"] = lambda w: ("token", "jws", jws.serialize_compact({"alg": "HS256"}, b"restricted", w.keys["oct16-signonly"], registry=w.jws_reg),
+                                            ("oct16", "HS256", b"restricted"))
+    calls["ops.signonly.verify"] = valued(lambda w: jws.deserialize_compact(t_hs256_16, w.keys["oct16-signonly"], registry=w.jws_reg).payload)
+    calls["ops.signonly.unwrap"] = valued(lambda w: jwe.decrypt_compact(t_a128kw, w.keys["oct16-signonly"], registry=w.jwe_reg).plaintext)
+    calls["ops.signonly.wrap"] = lambda w: ("token", "jwe", jwe.encrypt_compact({"alg": "A128KW", "enc": "A128GCM"}, b"x", w.keys["oct16-signonly"], registry=w.jwe_reg),
+                                            ("oct16", "A128KW", b"x"))
+    calls["ops.verifyonly.verify"] = valued(lambda w: jws.deserialize_compact(t_hs256_16, w.keys["oct16-verifyonly"], registry=w.jws_reg).payload)
+    calls["ops.verifyonly.sign"] = lambda w: ("token", "jws", jws.serialize_compact({"alg": "HS256"}, b"nope", w.keys["oct16-verifyonly"], registry=w.jws_reg),
+                                              ("oct16", "HS256", b"nope"))
+    calls["ops.verifyonly.wrap"] = lambda w: ("token", "jwe", jwe.encrypt_compact({"alg": "A128KW", "enc": "A128GCM"}, b"x", w.keys["oct16-verifyonly"], registry=w.jwe_reg),
+                                              ("oct16", "A128KW", b"x"))
 
     def jwt_enc(w):
         return ("token", "jwt", jwt.encode({"alg": "HS256"}, {"iss": "me", "n": 1}, w.keys["oct32"], registry=w.jws_reg), ("oct32", "HS256", None))
@@ -793,6 +810,8 @@ API_PAIRS = [
     ("jws.sign.set.ES256", "key.ensure_kid:p256"),
     ("jws.sign.set.ES256", "jws.sign.set.HS256"),
     ("jws.sign.set.nokid.HS256", "jws.sign.set.nokid.HS256"),
+    ("ops.signonly.sign", "ops.signonly.unwrap"),
+    ("ops.verifyonly.verify", "ops.verifyonly.wrap"),
     ("jws.sign.set.nokid.ES256", "jws.sign.set.nokid.HS256"),
     ("jwe.enc.set.nokid.A256KW", "jwe.enc.set.nokid.A256KW"),
     ("jwe.enc.set.nokid.RSA-OAEP", "jws.sign.set.nokid.EdDSA"),
